@@ -2,6 +2,7 @@ package main
 
 import (
 	"go/types"
+	"strings"
 
 	"golang.org/x/tools/go/ssa"
 )
@@ -10,6 +11,13 @@ import (
 // initialised in its package's init function by errors.New / fmt.Errorf (and is
 // never stored to elsewhere in first-party code). Such sentinels are non-nil.
 func (e *Engine) globalInitNonNil(g *ssa.Global) bool {
+	if g.Pkg != nil && !strings.HasPrefix(g.Pkg.Pkg.Path(), "github.com/KafScale") && !strings.HasPrefix(g.Pkg.Pkg.Path(), "github.com/kafscale") {
+		// error sentinels of the standard library and dependencies (io.EOF, io.ErrUnexpectedEOF, ...) are non-nil
+		if strings.HasPrefix(g.Name(), "Err") || g.Name() == "EOF" {
+			e.abstract("error sentinel " + g.Pkg.Pkg.Path() + "." + g.Name() + " is non-nil (trusted)")
+			return true
+		}
+	}
 	if e.globalNonNil == nil {
 		e.globalNonNil = map[*ssa.Global]bool{}
 		stores := map[*ssa.Global]int{}
